@@ -25,12 +25,9 @@ def docsJson (d : HL.Text.Docs) : Json :=
   Json.arr (l.map fun (u, t) => Json.mkObj [("u", u), ("t", String.ofList t)])
 
 /-- op c01.hist: run a history through model and reference client.
-    model     = the model's document store after every notification;
-    spec_ok   = at every step up to the first non-conforming notification the
-                implementation's store ("impl") equals the reference client's buffers;
-    known     = ["insert-at-origin"] when the only disagreements are at steps that contain a
-                ranged change with range 0:0-0:0 (the reference is re-synchronised after such
-                a step, so any other disagreement later in the history is still reported). -/
+    model   = the model's document store after every notification;
+    spec_ok = at every step up to the first non-conforming notification the implementation's
+              store ("impl") equals the reference client's buffers. -/
 def hist (j : Json) : Json := Id.run do
   let notes := (jarr j "notes").toList.map parseNote
   let impl := jarr j "impl"
@@ -39,14 +36,11 @@ def hist (j : Json) : Json := Id.run do
   let mut out : Array Json := #[]
   let mut domain := true
   let mut specOk := true
-  let mut knownHit := false
   let mut why := ""
   let mut ranged := false
   let mut i := 0
   for n in notes do
-    let ok := HL.Ref.noteConf d n
-    let origin := HL.Ref.noteOrigin d n
-    domain := domain && ok
+    domain := domain && HL.Ref.noteOK d n
     match n with
     | .didChange u cs => if (d.get u).isSome && cs.any (fun c => match c with | .ranged _ _ => true | _ => false) then ranged := true
     | _ => pure ()
@@ -57,19 +51,13 @@ def hist (j : Json) : Json := Id.run do
       | _ => []
     let stepOk := implDocs.length == rd.length &&
       implDocs.all fun (u, t) => HL.Ref.Docs.get rd u == some (HL.Ref.enc16 t)
-    if domain && !stepOk then
-      if origin then knownHit := true
-      else if specOk then
-        specOk := false
-        why := s!"step {i}: server text differs from the client buffer"
-    if origin then
-      -- client and server differ from here on for a known reason: re-synchronise
-      rd := implDocs.map fun (u, t) => (u, HL.Ref.enc16 t)
+    if domain && !stepOk && specOk then
+      specOk := false
+      why := s!"step {i}: server text differs from the client buffer"
     out := out.push (docsJson d)
     i := i + 1
-  let known : Array Json := if knownHit then #["insert-at-origin"] else #[]
-  return Json.mkObj [("model", Json.arr out), ("spec_ok", specOk && !knownHit),
-    ("in_domain", domain), ("known", Json.arr (if specOk then known else #[])), ("why", why),
+  return Json.mkObj [("model", Json.arr out), ("spec_ok", specOk),
+    ("in_domain", domain), ("known", Json.arr #[]), ("why", why),
     ("nontrivial", domain && ranged)]
 
 def u16 (j : Json) : Json :=
@@ -86,10 +74,9 @@ def apply (j : Json) : Json :=
   let ok := HL.Ref.rangeOK s r
   let ref := HL.Ref.applyOne (HL.Ref.enc16 s) (.ranged r t)
   let implT := (jstr j "impl").toList
-  let origin := isFullChange r
   Json.mkObj [("model", String.ofList m), ("in_domain", ok),
     ("spec_ok", !ok || HL.Ref.enc16 implT == ref), ("why", "ApplyChange differs from the client buffer"),
-    ("nontrivial", ok && !origin)]
+    ("nontrivial", ok)]
 
 def handle (op : String) (j : Json) : Option Json :=
   match op with
